@@ -21,6 +21,16 @@ TRUSTED = [
     "Collect events are covered by the theorem under the assumption that a collection frees no object bound to a global (C03)",
 ]
 
+# every event / object / value kind of Model/CallCache.v as it appears in the histories the harness emits
+MODEL_CLASSES = [
+    ("Call", r"\bCall \d+"), ("SetGlobal to a pointer", r"SetGlobal \d+ \(GPtr"), ("SetGlobal to a non-callable", r"SetGlobal \d+ GOther"),
+("Alloc of a function", r"mkObj KFn"), ("Alloc of a closure", r"mkObj KClo"),
+    ("Alloc of a native", r"mkObj KNat"), ("function body with call sites", r"mkObj K\w+ \d+ \[\d"), ("NewUnit", r"\bNewUnit\b"),
+    ("site compiled as a native call (104)", r"mkDecl true"), ("site compiled as a plain call (77)", r"mkDecl false"),
+    ("Retire", r"\bRetire\b"), ("SaveReload", r"\bSaveReload\b"), ("Collect", r"\bCollect\b"),
+]
+
+
 def parse_obs(t):
     return [[int(x) for x in re.findall(r"\d+", part)] for part in re.findall(r"\[([^\[\]]*)\]", t)]
 
@@ -46,19 +56,28 @@ def run(ctx):
         ctx.broken.append("coq: model files for the C05 tie do not build")
         ctx.log(out[-2000:])
         return
-    n_cases = 400 if ctx.tier == "quick" else 5000
-    profiles = ["dev"] if ctx.tier == "quick" else ["dev", "release"]
+    n_cases = 400 if ctx.tier == "quick" else 12000
+    # (build profile, optimisation level, cases, seed): quick = one run; thorough = dev + release (overflow checks and debug
+    # assertions on / off), every optimisation level, three more seeds
+    if ctx.tier == "quick":
+        runs = [("dev", 1, n_cases, ctx.seed)]
+    else:
+        runs = [("dev", 1, n_cases, ctx.seed), ("release", 1, n_cases, ctx.seed), ("dev", 2, n_cases // 2, ctx.seed + 101),
+                ("dev", 3, n_cases // 2, ctx.seed + 202), ("release", 3, n_cases // 2, ctx.seed + 303), ("release", 2, n_cases // 4, ctx.seed + 404),
+                ("dev", 0, n_cases // 4, ctx.seed + 505)]
     total, ncalls = 0, 0
     distinct = set()
     modes, kinds, by_sig = {}, set(), {}
+    model_classes, outcome_classes, sizes = {}, {}, {}
+    env_in, env_out = 0, 0
     corpus_cases(ctx)
-    for prof in profiles:
+    for prof, opt_level, n_cases, run_seed in runs:
         ok, paths, log = vlib.harness_build(["hx_callcache"], profile=prof)
         if not ok:
             ctx.broken.append("harness build failed (hx_callcache, %s)" % prof)
             ctx.log(log[-3000:])
             return
-        rc, out = vlib.sh([paths["hx_callcache"], "--seed", str(ctx.seed), "--n", str(n_cases)], timeout=1500)
+        rc, out = vlib.sh([paths["hx_callcache"], "--seed", str(run_seed), "--n", str(n_cases), "--opt", str(opt_level)], timeout=2400)
         cases = []
         for line in out.splitlines():
             f = line.split("\t")
@@ -67,11 +86,23 @@ def run(ctx):
                               "problems": f[7], "kinds": f[8], "ncalls": int(f[9])})
         if rc != 0 or len(cases) != n_cases:
             ctx.violation("c05:harness-crash", "hx_callcache died (the VM took the process down) after %d cases" % len(cases),
-                          {"profile": prof, "completed_cases": len(cases),
-                           "cmd": f"hx_callcache --seed {ctx.seed} --n {n_cases}", "output_tail": out[-1500:]})
+                          {"profile": prof, "opt": opt_level, "seed": run_seed, "completed_cases": len(cases),
+                           "cmd": f"hx_callcache --seed {run_seed} --n {n_cases} --opt {opt_level}", "output_tail": out[-1500:]})
             if not cases:
                 return
         total += len(cases)
+        for c in cases:
+            for key, pat in MODEL_CLASSES:
+                model_classes[key] = model_classes.get(key, 0) + len(re.findall(pat, c["query"]))
+            for step in parse_obs(c["observed"]):
+                if step:
+                    outcome_classes["step ok" if step[0] == 0 else "step failed (callee not callable / undefined)"] = \
+                        outcome_classes.get("step ok" if step[0] == 0 else "step failed (callee not callable / undefined)", 0) + 1
+                    for tag in step[2:]:
+                        k = "native ran" if tag < 10 else "function / closure ran"
+                        outcome_classes[k] = outcome_classes.get(k, 0) + 1
+            nin = c["query"].count("NewUnit")
+            sizes[nin] = sizes.get(nin, 0) + 1
         for c in cases:
             modes[c["mode"]] = modes.get(c["mode"], 0) + 1
             kinds.update(k for k in c["kinds"].split(",") if k)
@@ -94,6 +125,16 @@ def run(ctx):
             ctx.broken.append("correspondence C05: model evaluation failed")
             ctx.log(err[-3000:])
         failset = set(fails)
+        # (a site that the run rewrote to CallGlobalNative no longer shows its slot id; the harness records 60000 for it.
+        #  Such a site never uses its slot again; for the domain check it gets a valid stand-in.)
+        # the histories are inside the theorems' domain: env_ok (slot ids fit, allocations use free heap indices,
+        # collections free nothing that is bound to a global) holds of every generated history
+        outside, err2 = vlib.coq_eval_cases("c05e", IMPORTS + "\nFrom Coq Require Import Bool List.", "(fun q => env_ok init (concat q))", "Bool.eqb",
+                                            [(re.sub(r"mkDecl (true|false) 6\d\d\d\d ", r"mkDecl \1 0 ", c["query"]), "true") for c in cases], shard=40)
+        if err2:
+            ctx.log(err2[-2000:])
+        env_in += len(cases) - len(outside)
+        env_out += len(outside)
         # (2) direct oracle: observation == the property's reference interpreter.  No failure class is excused any
         # more (KF-C05-1..3 are repaired): every wrong callee is a violation with its session as the failing input
         # concrete failing histories first (they are what a reader needs), then model mismatches
@@ -101,7 +142,7 @@ def run(ctx):
         mism = [i for i, c in enumerate(cases) if c["observed"] == c["spec"] and i in failset]
         for i in wrong[:5] + mism[:3]:
             c = cases[i]
-            rep = {"mode": c["mode"], "case_seed": c["seed"], "profile": prof, "source": c["source"],
+            rep = {"mode": c["mode"], "case_seed": c["seed"], "profile": prof, "opt": opt_level, "seed": run_seed, "source": c["source"],
                    "observed": c["observed"], "spec": c["spec"], "model_query": c["query"]}
             if i in failset:
                 mo, _ = vlib.coq_eval_terms("c05", IMPORTS, [f"session_obs ({c['query']})"])
@@ -121,10 +162,20 @@ def run(ctx):
         ctx.add_samples([{"mode": c["mode"], "source": c["source"][:400], "observed": c["observed"], "spec": c["spec"]}
                          for c in cases[:2] + cases[5:6] + cases[8:9]])
     ctx.cov["evaluations"] = total
+    ctx.cov["runs (profile, optimisation level, cases, seed)"] = [list(r) for r in runs]
     ctx.cov["distinct_nontrivial"] = len(distinct)
     ctx.cov["calls_executed_top_level"] = ncalls
-    ctx.cov["input_distribution"] = {"modes": modes, "object_kinds_seen": sorted(kinds),
-                                     "histories_violating_the_property_by_signature": by_sig}
+    ctx.cov["input_distribution"] = {"modes": modes, "object_kinds_allocated_by_the_programs": sorted(kinds),
+                                     "histories_violating_the_property_by_signature": by_sig,
+                                     "model_event_classes (occurrences in the histories of this run)": model_classes,
+                                     "outcomes": outcome_classes,
+                                     "histories_inside_env_ok (the hypothesis of call_runs_current)": env_in,
+                                     "histories_outside_env_ok": env_out,
+                                     "units_per_history (histogram)": {str(k): v for k, v in sorted(sizes.items())}}
+    need = 3 if ctx.tier == "quick" else 30
+    starved = [k for k, _ in MODEL_CLASSES if model_classes.get(k, 0) < need]
+    if total and starved:
+        ctx.broken.append("tie C05: the generator reaches these classes of Model/CallCache.v fewer than %d times: %s" % (need, "; ".join(starved)))
     ctx.cov["rule"] = ("seeded random histories: 50% multi-input REPL sessions on one VM (2-7 inputs), 30% single programs, 20% programs "
                        "run after serialize/deserialize in a fresh VM; statements: fn definitions at three call-graph levels "
                        "(bodies with 0-2 call sites), redefinitions across inputs, let mut / assignments binding leaf functions, "
